@@ -839,6 +839,7 @@ func main() {
 		"bulk: value n = f(seed, tier, n) drawn from ~55 registered harness types, framework ids and reflect-built unnamed composites (depth <= 4), every value under every cache configuration; non-trivial iff the value contains a boundary tag (measured by the generator) or >= 2 composite nesting levels or was encoded shorter with the negotiated caches than without (cache hit); distinct = type shape x primary boundary tag x nesting>=2 x cache hit")
 	hk.Assume("equality: floats by bit pattern except that a float32 NaN may come back with the quiet bit set (counted, not judged); time.Time by Equal and zone offset (zone name and monotonic reading are not part of the value); errors by identity when registered and an ErrCache is negotiated, by text otherwise; []byte nil == empty; any other nil != empty")
 	hk.Assume("supported types = basic kinds, framework types, types registered with edf.RegisterTypeOf, unnamed slices/arrays/maps of those; unregistered named composites are accepted by the encoder and decode as the unnamed type: counted as a note, not judged")
+	hk.Assume("gen.NetworkFlags (custom marshaler of the framework) transports no other flag when Enable is false, by design: only such canonical values are generated; gen.NetworkProxyFlags (marshaler is a TODO stub of the unimplemented proxy feature) is not generated")
 	hk.Assume("map keys never contain NaN, time.Time or errors (such keys cannot be looked up after any transport)")
 
 	if err := registerAll(0); err != nil {
